@@ -165,7 +165,19 @@ def gen_project(r) -> dict:
 
 COMBOS = [("home", "abs", "dir"), ("proj", "dot", "dir"), ("parent", "rel", "dir"), ("grand", "rel", "dir"), ("other", "abs", "dir"),
           ("other", "rel", "dir"), ("proj", "rel", "files"), ("home", "abs", "files"), ("grand", "rel", "files"), ("proj", "abs", "dir"),
-          ("parent", "rel", "files"), ("other", "abs", "files")]
+          ("parent", "rel", "files"), ("other", "abs", "files"),
+          # working directory strictly inside the project: `mod.py`, `../lib/x.py`, `.` typed in a sub-directory
+          ("sub", "rel", "files"), ("sub", "rel", "files"), ("sub", "dot", "dir")]
+CONFIG_SENSITIVE = ["nesting", "srp"]   # verdict depends on the project's .thailint.yaml (BASE_CFG): a lost project root shows
+
+
+def _pick_sub(r, project):
+    """a directory of the project (a proper prefix of some file's path) to use as working directory, or None"""
+    deep = [f["rel"] for f in project["files"] if len(f["rel"]) >= 2]
+    if not deep:
+        return None
+    rel = r.choice(deep)
+    return rel[:r.randint(1, len(rel) - 1)]
 
 
 def gen_invocations(r, project, n: int, cmd_cycle: list[str]) -> list[dict]:
@@ -173,7 +185,14 @@ def gen_invocations(r, project, n: int, cmd_cycle: list[str]) -> list[dict]:
     for _ in range(n):
         cwd, spelling, target = r.choice(COMBOS)
         cmd = cmd_cycle.pop(0) if cmd_cycle else r.choice(CMDS)
+        sub = _pick_sub(r, project) if cwd == "sub" else None
+        if cwd == "sub" and sub is None:
+            cwd, spelling, target = "proj", "rel", "files"
         inv = {"cwd": cwd, "spelling": spelling, "target": target, "cmd": cmd}
+        if sub is not None:
+            inv["sub"] = sub
+            if r.random() < 0.6:
+                inv["cmd"] = r.choice(CONFIG_SENSITIVE)
         if target == "files":
             k = r.randint(1, min(3, len(project["files"])))
             inv["pick"] = sorted(r.sample(range(len(project["files"])), k))
@@ -213,7 +232,8 @@ def gen_matrix(seed: int, n_projects: int) -> list[dict]:
     """in-process matrix: every special parent name x every command, absolute spelling plus one rotating other spelling"""
     specials = special_parents()
     others = [("grand", "rel", "dir"), ("proj", "dot", "dir"), ("parent", "rel", "dir"), ("other", "abs", "dir"), ("grand", "rel", "files"),
-              ("other", "rel", "dir")]
+              ("other", "rel", "dir"), ("sub", "rel", "files")]
+    par_spellings = [("grand", "rel", "dir"), ("proj", "dot", "dir"), ("parent", "rel", "dir"), ("proj", "rel", "files"), ("home", "abs", "dir")]
     groups = []
     for i in range(n_projects):
         r = rng_for(seed, PROP, "matrix", i)
@@ -233,9 +253,48 @@ def gen_matrix(seed: int, n_projects: int) -> list[dict]:
                     inv["pick"] = list(range(len(project["files"])))
                 if cwd == "other":
                     inv["cwd_pats"] = r.sample(CWD_PATS, r.choice([0, 1, 1]))
+                if cwd == "sub":
+                    inv["sub"] = _pick_sub(r, project)
+                    if inv["sub"] is None:
+                        inv["cwd"] = "proj"
                 invs.append(inv)
             parents = [nm] if r.random() < 0.7 else [nm, r.choice(NEUTRAL_PARENTS)]
             groups.append({"id": f"m{i}.{li}", "via": "api", "project": project, "loc": {"parents": parents, "name": "proj"}, "invs": invs})
+            # the same location through the process-pool path (lint_files_parallel / lint_directory_parallel, 2 workers): the
+            # parallel run must report what the specification says for every spelling
+            cwd, spelling, target = par_spellings[(i + li) % len(par_spellings)]
+            pinv = {"cwd": cwd, "spelling": spelling, "target": target, "cmd": CMDS[(i + li) % len(CMDS)], "parallel": 2}
+            if target == "files":
+                pinv["pick"] = list(range(len(project["files"])))
+            groups.append({"id": f"p{i}.{li}", "via": "api", "pool": True, "project": project, "loc": {"parents": parents, "name": "proj"},
+                           "invs": [pinv]})
+    return groups
+
+
+def gen_parallel_cli(seed: int, n_projects: int) -> list[dict]:
+    """real CLI with --parallel: a project with enough files (>= 2 x default workers) for the process-pool path, under an excluded-name
+    parent, a marker-named parent and a neutral one, in dot / relative / absolute spelling"""
+    specials = special_parents()
+    from translator import items_pathloc
+    excl = [("pkg.egg-info" if "*" in d else d) for d in items_pathloc.tables_for_harness()["excluded_dirs"] if d != ".git"]
+    groups = []
+    for i in range(n_projects):
+        r = rng_for(seed, PROP, "parallel", i)
+        project = gen_project(r)
+        j = 0
+        while len(project["files"]) < 17:
+            lang = ["py", "ts", "rs"][j % 3]
+            dirs = [r.choice(NEUTRAL_DIRS + SPECIAL_DIRS) for _ in range(r.choice([1, 1, 2]))]
+            project["files"].append({"rel": dirs + [f"{r.choice(STEMS[lang])}{j}{EXT[lang]}"], "tpl": lang})
+            j += 1
+        rels = [tuple(f["rel"]) for f in project["files"]]
+        if any(a != b and b[:len(a)] == a for a in rels for b in rels):
+            continue  # a file name used as a directory: skip this draw
+        for li, nm in enumerate([r.choice(excl), r.choice(specials)]):
+            invs = []
+            for cwd, spelling, target in r.sample([("proj", "dot", "dir"), ("grand", "rel", "dir"), ("home", "abs", "dir"), ("parent", "rel", "dir")], 2):
+                invs.append({"cwd": cwd, "spelling": spelling, "target": target, "cmd": r.choice(CMDS), "parallel": True})
+            groups.append({"id": f"P{i}.{li}", "project": project, "loc": {"parents": [nm], "name": "proj"}, "invs": invs})
     return groups
 
 
@@ -265,6 +324,8 @@ def layout(S: Path, loc: dict, inv: dict):
     P = S.joinpath(*loc["parents"], loc["name"])
     rel_from = {"proj": [], "parent": [loc["name"]], "grand": loc["parents"] + [loc["name"]],
                 "other": [".."] + loc["parents"] + [loc["name"]], "home": [".."] + loc["parents"] + [loc["name"]]}
+    if inv["cwd"] == "sub":
+        return P, P.joinpath(*inv["sub"]), []
     cwd = {"proj": P, "parent": P.parent, "grand": S, "other": S / "other_cwd", "home": S / "home"}[inv["cwd"]]
     lead = None if inv["spelling"] == "abs" else rel_from[inv["cwd"]]
     return P, cwd, lead
@@ -281,7 +342,7 @@ def chain_of(start: Path, markers) -> list[tuple[str, list[str]]]:
     return out
 
 
-def _api_invoke(cmd: str, targets: list[str], cwd: Path):
+def _api_invoke(cmd: str, targets: list[str], cwd: Path, parallel=None):
     """what the CLI command does after click: detect the root from the first target, build the orchestrator, lint the targets as typed,
     keep the command's rule family.  In-process (forked worker, chdir) - used for the full name x command matrix; the CLI runs stay
     the authority for the glue."""
@@ -296,7 +357,17 @@ def _api_invoke(cmd: str, targets: list[str], cwd: Path):
         clear_ignore_parser_cache()  # a fresh process has no cached parser
         path_objs = [Path(t) for t in targets]
         orch = setup_base_orchestrator(path_objs, None, False, None)
-        found = execute_linting_on_paths(orch, path_objs, True, False)
+        if parallel:
+            # execute_linting_on_paths(parallel=True) with a small worker count, so that a handful of files already takes the
+            # process-pool path (lint_files_parallel goes sequential below 2 x workers files)
+            found = []
+            fs = [p for p in path_objs if p.is_file()]
+            if fs:
+                found.extend(orch.lint_files_parallel(fs, max_workers=int(parallel)))
+            for dpath in [p for p in path_objs if p.is_dir()]:
+                found.extend(orch.lint_directory_parallel(dpath, recursive=True, max_workers=int(parallel)))
+        else:
+            found = execute_linting_on_paths(orch, path_objs, True, False)
     except BaseException as e:  # noqa: BLE001
         return 2, None, "", f"{type(e).__name__}: {e}", []
     finally:
@@ -330,28 +401,38 @@ def run_group(group: dict) -> list[dict]:
             if inv.get("cwd_pats"):
                 ign.write_text("\n".join(inv["cwd_pats"]) + "\n")
             files = all_files(project)
+            sub = inv.get("sub") if inv["cwd"] == "sub" else None
             if inv["target"] == "files":
                 files = [project["files"][k] for k in inv["pick"]]
+            elif sub is not None:
+                files = [f for f in files if f["rel"][:len(sub)] == sub and len(f["rel"]) > len(sub)]   # `.` lints the sub-tree
             absP = list(P.parts[1:])
 
-            def given(rel):
-                return (True, absP + rel) if lead is None else (False, lead + rel)
+            def given(rel, lead=lead, sub=sub):
+                if lead is None:
+                    return (True, absP + rel)
+                if sub is not None:   # os.path.relpath, component-wise
+                    k = 0
+                    while k < len(sub) and k < len(rel) - 1 and sub[k] == rel[k]:
+                        k += 1
+                    return (False, [".."] * (len(sub) - k) + rel[k:])
+                return (False, lead + rel)
 
             def spell(g):
                 return ("/" if g[0] else "") + "/".join(g[1])
             if inv["target"] == "dir":
                 targets = [spell(given([]))] if (lead is None or lead) else ["."]
-                start = P
+                start = cwd if sub is not None else P
             else:
                 targets = [spell(given(f["rel"])) for f in files]
                 start = P.joinpath(*files[0]["rel"]).parent
             if group.get("via") == "api":
-                rc, vs, so, se, swallowed = _api_invoke(inv["cmd"], targets, cwd)
+                rc, vs, so, se, swallowed = _api_invoke(inv["cmd"], targets, cwd, inv.get("parallel"))
             else:
                 faillog = S / "faillog.jsonl"
                 if faillog.exists():
                     faillog.unlink()
-                args = [inv["cmd"], "--format", "json", *targets]
+                args = [inv["cmd"], "--format", "json", *(["--parallel"] if inv.get("parallel") else []), *targets]
                 rc, so, se = run_cli(args, cwd=cwd, home=home, env_extra={"THAILINT_VERIF_FAILLOG": str(faillog)})
                 if rc == 124:  # timed out on a busy machine: one patient retry before calling it a failure
                     rc, so, se = run_cli(args, cwd=cwd, home=home, timeout=600, env_extra={"THAILINT_VERIF_FAILLOG": str(faillog)})
@@ -537,7 +618,9 @@ def run(tier: str, seed: int, replay: str | None = None) -> int:
                 "linter commands with absolute / relative / dot spellings of directory and file targets from five kinds of working directory "
                 "(project, parent, grandparent, unrelated directory with its own .thailintignore, neutral). The full "
                 "matrix of every special parent name x every command is additionally run in-process through the same functions the CLI commands call "
-                "(setup_base_orchestrator + execute_linting_on_paths after chdir). A case (= one invocation) is "
+                "(setup_base_orchestrator + execute_linting_on_paths after chdir), including working directories strictly inside the project "
+                "(`mod.py`, `../x/mod.py`, `.` in a sub-directory) and --parallel / lint_files_parallel variants (a project with >= 2 x workers "
+                "files through the CLI, 2 workers in-process). A case (= one invocation) is "
                 "non-trivial when at least one targeted file has a finding of the command's rule in its text; distinct = distinct "
                 "(project, location, cwd, spelling, targets, command). Plus unit-level cases for project-root detection (marker layouts).")
     chk.trusted_base += [
@@ -568,11 +651,23 @@ def run(tier: str, seed: int, replay: str | None = None) -> int:
         groups = [payload["group"]]
         root_cases = []
     else:
-        n_projects, n_special, n_inv, n_matrix = (8, 2, 5, 2) if tier == "quick" else (24, 7, 9, 20)
-        groups = corpus_groups() + gen_groups(seed, n_projects * scale, n_special, n_inv) + gen_matrix(seed, n_matrix * scale)
+        n_projects, n_special, n_inv, n_matrix, n_par = (8, 2, 5, 2, 1) if tier == "quick" else (24, 7, 9, 20, 8)
+        groups = (corpus_groups() + gen_groups(seed, n_projects * scale, n_special, n_inv) + gen_parallel_cli(seed, n_par * scale)
+                  + gen_matrix(seed, n_matrix * scale))
         root_cases = gen_root_cases(seed, (150 if tier == "quick" else 1500) * scale)
     t0 = _t.time()
-    results = pool_map(run_group, groups, procs=8, chunks=1)
+    # groups whose in-process run starts a process pool of its own cannot live in daemonic pool workers: they get an executor
+    pooled = [k for k, g in enumerate(groups) if g.get("pool")]
+    plain = [k for k, g in enumerate(groups) if not g.get("pool")]
+    results = [None] * len(groups)
+    for k, res in zip(plain, pool_map(run_group, [groups[k] for k in plain], procs=8, chunks=1)):
+        results[k] = res
+    if pooled:
+        import multiprocessing as _mp
+        from concurrent.futures import ProcessPoolExecutor
+        with ProcessPoolExecutor(max_workers=6, mp_context=_mp.get_context("fork")) as ex:
+            for k, res in zip(pooled, ex.map(run_group, [groups[k] for k in pooled])):
+                results[k] = res
     phases["cli"] = round(_t.time() - t0, 1)
     items = []
     for g, recs in zip(groups, results):
@@ -618,14 +713,14 @@ def run(tier: str, seed: int, replay: str | None = None) -> int:
         nontrivial = any(f["raw"] for f in rec["files"])
         chk.count(case_key, nontrivial)
         chk.dist("cmd:" + inv["cmd"])
-        chk.dist("via:" + g.get("via", "cli"))
+        chk.dist("via:" + g.get("via", "cli") + (" --parallel / process pool" if inv.get("parallel") else ""))
         chk.dist(f"spelling:{inv['spelling']}/{inv['target']} from {inv['cwd']}")
         for pn in g["loc"]["parents"] + [g["loc"]["name"]]:
             chk.dist("parent:" + pn)
         chk.sample({"location": g["loc"], "cwd": inv["cwd"], "targets": rec["targets"], "cmd": inv["cmd"],
                     "files": [{"rel": "/".join(f["rel"]), "raw": f["raw"], "impl": f["impl"]} for f in rec["files"]],
                     "root_patterns": g["project"]["root_pats"], "linter_ignore": g["project"]["lint_ign"].get(inv["cmd"])}, 4)
-        payload = {"group": {"id": g["id"], "via": g.get("via", "cli"), "project": g["project"], "loc": g["loc"], "invs": [inv]}, "observed": rec}
+        payload = {"group": {"id": g["id"], "via": g.get("via", "cli"), "pool": g.get("pool", False), "project": g["project"], "loc": g["loc"], "invs": [inv]}, "observed": rec}
         if rec["error"]:
             chk.violation({"reason": "CLI run failed", "detail": rec["error"], **payload})
             continue
